@@ -52,6 +52,7 @@ verus! {
 //@lextern residual_gibbs_energy(L_State) -> real
 //@lextern molar_isochoric_heat_capacity(L_State, Contributions) -> real
 //@lextern isentropic_compressibility(L_State) -> real
+//@lextern isothermal_compressibility(L_State) -> real
 
 //@lift feos-core/src/state/residual_properties.rs State::partial_molar_volume
 //@end
@@ -100,6 +101,41 @@ verus! {
 //@lift feos-core/src/state/properties.rs State::grueneisen_parameter
 //@end
 //@lift feos-core/src/state/properties.rs State::isenthalpic_compressibility
+//@end
+// ---- mass-specific properties (Molarweight models)
+//@ltype MolarWeight => real
+//@ltype Mass => real
+//@ltype MassDensity => real
+//@ltype SpecificEntropy => real
+//@ltype SpecificEnergy => real
+//@ltype Velocity => real
+//@lextern molar_weight(L_Eos) -> RArr
+//@lextern molar_isobaric_heat_capacity(L_State, Contributions) -> real
+//@lift feos-core/src/state/residual_properties.rs State::total_molar_weight
+//@end
+//@lift feos-core/src/state/residual_properties.rs State::mass
+//@end
+//@lift feos-core/src/state/residual_properties.rs State::total_mass
+//@end
+//@lift feos-core/src/state/residual_properties.rs State::mass_density
+//@end
+//@lift feos-core/src/state/residual_properties.rs State::massfracs
+//@end
+//@lift feos-core/src/state/properties.rs State::specific_isochoric_heat_capacity
+//@end
+//@lift feos-core/src/state/properties.rs State::specific_isobaric_heat_capacity
+//@end
+//@lift feos-core/src/state/properties.rs State::specific_entropy
+//@end
+//@lift feos-core/src/state/properties.rs State::specific_enthalpy
+//@end
+//@lift feos-core/src/state/properties.rs State::specific_helmholtz_energy
+//@end
+//@lift feos-core/src/state/properties.rs State::specific_internal_energy
+//@end
+//@lift feos-core/src/state/properties.rs State::specific_gibbs_energy
+//@end
+//@lift feos-core/src/state/properties.rs State::speed_of_sound
 //@end
 
 // =====================================================================================
@@ -182,5 +218,37 @@ pub proof fn contract_c01_molar_twins(s: L_State, c: Contributions) by(nonlinear
         &&& residual_molar_gibbs_energy(s) == residual_gibbs_energy(s) / n
     })
 {}
+
+/// mass-specific twins: molar value divided by the molar weight of the mixture  MW = sum_i x_i MW_i;
+/// speed of sound  c^2 = 1 / (rho MW kappa_s)
+pub proof fn contract_c01_mass_specific(s: L_State, c: Contributions, i: int) by(nonlinear_arith)
+    ensures ({
+        let mw = rsum(molar_weight(s.eos).len, |k: int| (molar_weight(s.eos).at)(k) * (s.molefracs.at)(k));
+        &&& total_molar_weight(s) == mw
+        &&& (mass(s).at)(i) == (s.moles.at)(i) * (molar_weight(s.eos).at)(i)
+        &&& total_mass(s) == s.total_moles * total_molar_weight(s)
+        &&& mass_density(s) == s.density * total_molar_weight(s)
+        &&& (massfracs(s).at)(i) == (mass(s).at)(i) / total_mass(s)
+        &&& specific_isochoric_heat_capacity(s, c) == molar_isochoric_heat_capacity(s, c) / total_molar_weight(s)
+        &&& specific_isobaric_heat_capacity(s, c) == molar_isobaric_heat_capacity(s, c) / total_molar_weight(s)
+        &&& specific_entropy(s, c) == molar_entropy(s, c) / total_molar_weight(s)
+        &&& specific_enthalpy(s, c) == molar_enthalpy(s, c) / total_molar_weight(s)
+        &&& specific_helmholtz_energy(s, c) == molar_helmholtz_energy(s, c) / total_molar_weight(s)
+        &&& specific_internal_energy(s, c) == molar_internal_energy(s, c) / total_molar_weight(s)
+        &&& specific_gibbs_energy(s, c) == molar_gibbs_energy(s, c) / total_molar_weight(s)
+        &&& speed_of_sound(s) == rsqrt(1real / (s.density * total_molar_weight(s) * isentropic_compressibility(s)))
+    })
+{
+    assert(total_molar_weight(s) == rsum(molar_weight(s.eos).len, |k: int| (molar_weight(s.eos).at)(k) * (s.molefracs.at)(k))) by {
+        lemma_mw(s);
+    }
+}
+proof fn lemma_mw(s: L_State)
+    ensures total_molar_weight(s) == rsum(molar_weight(s.eos).len, |k: int| (molar_weight(s.eos).at)(k) * (s.molefracs.at)(k))
+{
+    let f = |k: int| (molar_weight(s.eos).at)(k) * (s.molefracs.at)(k);
+    let a = RArr { len: molar_weight(s.eos).len, at: |i__: int| (molar_weight(s.eos).at)(i__) * (s.molefracs.at)(i__) };
+    assert(a.at =~= f);
+}
 } // verus!
 fn main() {}
